@@ -18,6 +18,9 @@ from harness.common import Reporter, Tooling
 
 class Ctx:
     def __init__(self, pid, tier, seed):
+        import os as _os
+        self._progress_file = _os.environ.get("VERIF_PROGRESS_FILE")
+        self._progress_t = 0.0
         self.deepen = False
         self.soft_broken = []    # textual ties (translated functions, regular-expression text) that no longer check: quick tier
         self.pid = pid
@@ -45,6 +48,14 @@ class Ctx:
         st["evaluations"] += 1
         self.evaluations += 1
         self.last = (stream, key)
+        if self._progress_file is not None:
+            now = time.time()
+            if now - self._progress_t > 1.0:
+                self._progress_t = now
+                try:
+                    open(self._progress_file, "w").write(json.dumps([stream, str(key)[:300]]))
+                except Exception:  # noqa: BLE001
+                    pass
         if key is not None and nontrivial:
             k = (stream, key)
             if k not in self.distinct:
@@ -254,6 +265,64 @@ def run_property(pid, tier, seed):
     return ctx.rep.finish(ev)
 
 
+def supervise(pid, tier, seed, argv):
+    """run the check in a child process and wait for it, but not for ever: a call into the library that never returns
+    inside C code (a regular expression that backtracks exponentially) cannot be interrupted from within, so the deadline
+    of the sweep is enforced from outside as well.  The child reports what it is doing once a second
+    (`.progress-<pid>`); when it has to be killed, that is what the violation names."""
+    import json
+    import os
+    import subprocess
+    import hashlib
+    deadline = float(os.environ.get("VERIF_DEADLINE_S") or (9000 if tier == "thorough" else 1500))
+    grace = deadline + float(os.environ.get("VERIF_GRACE_S") or 600)          # translate + lake build + the child's own deadline handling come first
+    prog = common.VERIF / (".progress-%s-%d" % (pid, os.getpid()))
+    env = dict(os.environ, VERIF_CHILD="1", VERIF_PROGRESS_FILE=str(prog))
+    cmd = [sys.executable, str(common.VERIF / "check"), pid, "--tier", tier]
+    p = subprocess.Popen(cmd, env=env, start_new_session=True)
+    try:
+        rc = p.wait(timeout=grace)
+        return rc
+    except subprocess.TimeoutExpired:
+        import signal
+        try:
+            os.killpg(p.pid, signal.SIGKILL)
+        except Exception:  # noqa: BLE001
+            p.kill()
+        p.wait()
+        last = None
+        try:
+            last = json.loads(prog.read_text())
+        except Exception:  # noqa: BLE001
+            pass
+        replay = {"property": pid, "tier": tier, "seed": seed, "key": "deadline", "found_failing_input": False,
+                  "what": "the check was still running %.0f s after it started and had to be killed from outside (on the unchanged tree it "
+                          "takes a small fraction of that): a call into the library does not return and cannot be interrupted "
+                          "(typically a regular expression that backtracks without end)" % grace,
+                  "last_stream_and_input_reported": last,
+                  "note": "the input being evaluated is the one AFTER the last one reported in that stream"}
+        common.REPLAYS.mkdir(exist_ok=True)
+        h = hashlib.sha256(json.dumps(replay, sort_keys=True, default=str).encode()).hexdigest()[:12]
+        path = common.REPLAYS / ("%s-%s.json" % (pid, h))
+        path.write_text(json.dumps(replay, indent=1, sort_keys=True, default=str))
+        try:
+            mod = importlib.import_module("harness.props.%s" % pid.lower())
+            common.write_evidence(pid, {"property_id": pid, "tier": tier, "seed": seed, "level": getattr(mod, "LEVEL", "proof"),
+                                        "coverage": {"killed_after_s": grace, "last_reported": last,
+                                                     "note": "the check did not finish; nothing it covered is claimed"},
+                                        "assumptions": [], "violations": 1, "wall_s": grace})
+        except Exception:  # noqa: BLE001
+            pass
+        print("VIOLATION property=%s replay=%s no-failing-input-found" % (pid, path))
+        sys.stdout.flush()
+        return 1
+    finally:
+        try:
+            prog.unlink()
+        except OSError:
+            pass
+
+
 def main(argv):
     if len(argv) >= 2 and argv[0] == "replay":
         from harness import replay
@@ -270,6 +339,8 @@ def main(argv):
     if tier not in ("quick", "thorough"):
         tier = "quick"
     seed = common.seed_from_env()
+    if os.environ.get("VERIF_CHILD") != "1" and os.environ.get("VERIF_NO_SUPERVISOR") != "1":
+        return supervise(pid, tier, seed, argv)
     try:
         return run_property(pid, tier, seed)
     except Tooling as e:
